@@ -24,6 +24,12 @@ def run(ctx):
     gen = ctx.tlc("msgpacktable", "MsgPackTable", "Gen_%s.cfg" % size, timeout=3000, workers=8)
     if not gen.traces:
         raise InfraError("generator emitted nothing")
+    # negative control: the typed path as first written (Decoder.Skip on ignored values, before arc
+    # commit 237ecc3) must be rejected by TLC -- shows that the invariant can fail
+    neg = ctx.tlc("msgpacktable", "MsgPackTable", "MC_aswritten.cfg", timeout=1200, workers=4, allow_violation=True)
+    if neg.violated != "EquivalentStrict":
+        raise InfraError("negative control MC_aswritten.cfg was not rejected by TLC (violated=%s)" % neg.violated)
+    ctx.note("negative_control", {"cfg": "MC_aswritten.cfg", "violated": neg.violated})
     hits = sum(1 for t in gen.traces if t["typed"] == "hit")
     div = sum(1 for t in gen.traces if t["divergent"])
     if hits == 0 or hits == len(gen.traces):
@@ -40,7 +46,7 @@ def run(ctx):
     rp = ctx.path("result.json")
     args = [binp, "-scenarios", sp, "-out", rp, "-seed", str(ctx.seed)]
     if ctx.quick():
-        args += ["-mutate-every", "12", "-flip-values", "3", "-store-every", "60"]
+        args += ["-mutate-every", "6", "-flip-values", "3", "-store-every", "60"]
     else:
         args += ["-mutate-every", "16", "-flip-values", "5", "-store-every", "40"]
     ctx.run(args, timeout=6000)
